@@ -123,6 +123,20 @@ pub fn run(name: &str, a: &[u64]) -> Vec<u64> {
         }
         // ---- C17: plan cache under a controlled schedule
         "cache_trace" => crate::cache::trace(a),
+        // ---- end-to-end codec cases
+        "enc_packets" => crate::codec::enc_packets(a),
+        "layout_packets" => {
+            let mut b = a[..5].to_vec();
+            b.push(0);
+            b.extend_from_slice(&a[5..]);
+            crate::codec::enc_packets(&b)
+        }
+        "layout_roundtrip" => crate::codec::layout_roundtrip(a),
+        "repair_window" => crate::codec::repair_window(a),
+        "codec_hist" => crate::codec::codec_hist(a),
+        "sbd_hist" => crate::codec::sbd_hist(a),
+        "intermediate" => crate::codec::intermediate(a),
+        "plan_ops" => crate::codec::plan_ops(a),
         _ => panic!("unknown case function {}", name),
     }
 }
